@@ -89,6 +89,9 @@ pub struct OBook {
     /// order of the attributes of a cell element: 0 formula, span, type, value (LibreOffice); 1 type, value, style, span,
     /// formula; 2 value, type, validation, formula, repeat, span
     pub cell_attr_order: u8,
+    /// XML comments and line breaks in the manifest: between the entries and between a file-entry start tag and its
+    /// encryption-data child
+    pub manifest_comments: bool,
 }
 
 fn spaces_xml(n: usize, mode: SpaceMode, at_start: bool) -> String {
@@ -244,6 +247,9 @@ pub fn manifest_xml(b: &OBook) -> String {
         }
     }
     o.push_str("</manifest:manifest>");
+    if b.manifest_comments {
+        o = o.replace("<manifest:encryption-data ", "\n  <!-- encrypted with the document password -->\n  <manifest:encryption-data ").replace("<manifest:file-entry ", "\n <!-- e --><manifest:file-entry ").replace("</manifest:manifest>", "\n</manifest:manifest>");
+    }
     o
 }
 
